@@ -127,6 +127,8 @@ PayOps ==
   \cup {Op("Payload", "", "", a, 0, 0, "varint-overflow") : a \in 1..5}
   \cup {Op("Payload", "", "", a, 0, 0, "len-gt-rest") : a \in 4..5}
   \cup {Op("Payload", "", "", a, 0, 0, "len-huge") : a \in 4..5}
+  \* a well-formed 10-byte uvarint with the top bit set (2^63, 2^64-1): negative once it is taken for an int
+  \cup {Op("Payload", "", "", a, 0, c, "len-top") : a \in 4..5, c \in 1..2}
   \cup {Op("Payload", "", "", a, 0, 0, "trunc-time") : a \in {1, 7, 8, 14, 15}}
   \cup {Op("Payload", "", "", a, 0, 0, "trailing") : a \in {1, 8}}
   \cup {Op("Payload", "", "", 0, 0, c, "random") : c \in 1..(IF Rich >= 2 THEN 64 ELSE 8)}
